@@ -42,6 +42,18 @@ CHECKS = {
         design_ref="DESIGN.md section 3 C24, section 8",
         technique="typed call-site enumeration; iterator data-flow classification; CFG separation (sort before sink)",
     ),
+    "C27": dict(
+        category="other",
+        text="Decides sibling agreement of check mode and write mode in `veryl build` and `veryl fmt`: the mode of every "
+             "site is the must-fact on opt.check; every write-mode output write (emitted .sv, source map, bundle, filelist) "
+             "must have a check-mode read of the same path (same MIR local, or the same Metadata-derived identity across "
+             "gen_filelist/check_bundle); check-mode writes go to the temp dir only; all_pass is cleared only in check mode; "
+             "fmt's write and fmt --check's failure sit under the same `input != formatted` must-fact on the text read from "
+             "the path written. Two known findings (F7a source map, F7b filelist) are listed in known_findings.json. It does "
+             "not decide that the compared bytes equal the bytes write mode would produce for every project state.",
+        design_ref="DESIGN.md section 3 C27, section 8",
+        technique="forward must-analysis (mode flag, comparison outcome) over MIR CFG; path identity by local / provenance",
+    ),
     "C29": dict(
         category="proof",
         text="Decides the guard and GC structure of veryl_cache::Store: gc's referenced set covers every blob-bearing "
